@@ -60,6 +60,14 @@ PROPS["C02"] = dict(
     ] if tier == "thorough" else []),
 )
 
+def fuzz_aux(pid, tier, quick=20, thorough=600):
+    """coverage-guided workload: libFuzzer drives the per-input oracle group of `pid` in harness/fuzz/fuzz_targets/decode_aux.rs"""
+    return dict(runtime="fuzz", name="fuzz", target="decode_aux", env={"VERIF_FUZZ_PROP": pid}, seconds=quick if tier == "quick" else thorough)
+
+
+FUZZ_RULE = ("; plus a coverage-guided stage: libFuzzer (16 forks, ASan build) chooses type and byte string, the same per-input rules judge "
+             "each execution (counters fuzz_executions / fuzz_coverage_edges / fuzz_corpus_new_inputs)")
+
 PROPS["C03"] = dict(
     level="exploration",
     rule="byte strings per decodable type: valid encodings, 10 mutations each (bit flip, special byte, truncate, extend, splice, insert, delete, "
@@ -116,10 +124,10 @@ PROPS["C08"] = dict(
     rule="byte strings (valid, 4 mutations, truncation, 2 random) per decodable type, decoded from the plain slice (reference) and from 5 base inputs "
          "(spy with known length, unknown length, IoReader<Cursor>, IoReader over a 1..9-byte short reader with Interrupted errors, &[u8]) under the "
          "empty wrapper word plus 3 random words over {CountedInput, depth-limit(MAX), mem-limit(MAX)}* of length <= 3, and from decode_from_bytes; "
-         "non-trivial = non-empty string; distinct = hash set of (type, bytes)",
+         "non-trivial = non-empty string; distinct = hash set of (type, bytes)" + FUZZ_RULE,
     assumptions=COMMON_ASSUMPTIONS + ["only success/failure, value and bytes consumed on success are compared; error texts and consumption on failure are not"],
-    required=[("types_exercised", 200), ("distinct_stacks_seen", 150), ("zero_copy_observed", 50), ("accepted", 1000), ("rejected", 1000)],
-    stages=lambda tier: [native()] + ([miri(shards=64, values=2)] if tier == "thorough" else []) + [asan(values=25 if tier == "quick" else 300)] + ([]),
+    required=[("fuzz_executions", 20000), ("types_exercised", 200), ("distinct_stacks_seen", 150), ("zero_copy_observed", 50), ("accepted", 1000), ("rejected", 1000)],
+    stages=lambda tier: [native()] + ([miri(shards=64, values=2)] if tier == "thorough" else []) + [asan(values=25 if tier == "quick" else 300), fuzz_aux("C08", tier)],
 )
 
 PROPS["C10"] = dict(
@@ -143,31 +151,31 @@ PROPS["C14"] = dict(
     rule="(1) every strict prefix (all cut points up to 512 bytes, sampled + structure boundaries beyond) of real encodings, through a slice and through "
          "IoReader over a short reader; (2) concatenations of 2..50 values of mixed types decoded value by value from one input (known length, unknown "
          "length, IoReader); (3) decode_all / decode_all_with_depth_limit(MAX) against decode + 'no input left' on valid, mutated, truncated and random "
-         "strings; non-trivial = encoding / concatenation of at least 2 bytes; distinct = hash set of (type, bytes)",
+         "strings; non-trivial = encoding / concatenation of at least 2 bytes; distinct = hash set of (type, bytes)" + FUZZ_RULE,
     assumptions=COMMON_ASSUMPTIONS,
-    required=[("types_exercised", 200), ("prefixes", 10000), ("concatenations", 100), ("consume_all_accepted", 100), ("consume_all_rejected_trailing", 100)],
-    stages=lambda tier: [native()],
+    required=[("fuzz_executions", 20000), ("types_exercised", 200), ("prefixes", 10000), ("concatenations", 100), ("consume_all_accepted", 100), ("consume_all_rejected_trailing", 100)],
+    stages=lambda tier: [native(), fuzz_aux("C14", tier)],
 )
 
 PROPS["C18"] = dict(
     level="exploration",
     rule="(1) DecodeLength::len on the real encoding of every generated value of the collection types and of tuples led by one (capability probed at "
          "compile time), plus count-only encodings through all four compact modes up to 2^32-1; (2) skip vs decode on valid, mutated, truncated and "
-         "random strings of every decodable type, comparing success and input position; non-trivial = non-empty input; distinct = hash set of (type, bytes)",
+         "random strings of every decodable type, comparing success and input position; non-trivial = non-empty input; distinct = hash set of (type, bytes)" + FUZZ_RULE,
     assumptions=COMMON_ASSUMPTIONS,
-    required=[("types_exercised", 200), ("len_peeks", 1000), ("len_peeks:mode2", 10), ("len_peeks_count_only", 50), ("skip_on_accepted", 1000), ("skip_on_rejected", 1000)],
-    stages=lambda tier: [native()],
+    required=[("fuzz_executions", 20000), ("types_exercised", 200), ("len_peeks", 1000), ("len_peeks:mode2", 10), ("len_peeks_count_only", 50), ("skip_on_accepted", 1000), ("skip_on_rejected", 1000)],
+    stages=lambda tier: [native(), fuzz_aux("C18", tier)],
 )
 
 PROPS["C19"] = dict(
     level="exploration",
     rule="decodes of valid, mutated, truncated and random strings of every decodable type through CountedInput over a spy input, (a) plain, (b) with an "
          "injected inner failure at request 0..5, (c) started near u64::MAX through the guarded hook; count() is compared with the spy's delivered "
-         "bytes after EVERY request (step checker above the counter) and at the end; non-trivial = non-empty input; distinct = hash set of (type, bytes, variant)",
+         "bytes after EVERY request (step checker above the counter) and at the end; non-trivial = non-empty input; distinct = hash set of (type, bytes, variant)" + FUZZ_RULE,
     assumptions=COMMON_ASSUMPTIONS + ["saturation is only reachable through the hook CountedInput::verif_with_count (cfg psc_verif)"],
-    required=[("types_exercised", 200), ("requests_checked", 100000), ("after_success", 1000), ("after_failure", 1000), ("cases_with_failed_reads", 1000),
+    required=[("fuzz_executions", 20000), ("types_exercised", 200), ("requests_checked", 100000), ("after_success", 1000), ("after_failure", 1000), ("cases_with_failed_reads", 1000),
               ("saturated_cases", 1000), ("hook_available", 1)],
-    stages=lambda tier: [native()],
+    stages=lambda tier: [native(), fuzz_aux("C19", tier)],
 )
 
 PROPS["C09"] = dict(
@@ -191,14 +199,14 @@ PROPS["C11"] = dict(
     rule="values of every decodable universe type (nesting Vec/Box/Rc/Arc/maps/sets/lists/deques/heaps/options/tuples, recursive derived types) x EVERY "
          "limit 0..=depth_hi+2 through the native entry points and through wrapper layers between limiter and decoder, observed by a spy; hostile "
          "strings x limits {0,1,2,3,MAX}; inputs nested 10^3..10^6 levels on a 2 MiB stack (release build). Non-trivial = value with container "
-         "nesting depth >= 2 (or a deep-nesting case); distinct = hash set of (type, bytes)",
+         "nesting depth >= 2 (or a deep-nesting case); distinct = hash set of (type, bytes)" + FUZZ_RULE,
     assumptions=COMMON_ASSUMPTIONS + [
         "depth_hi = longest chain of nested heap containers in the value; depth_lo = (longest chain of nested non-empty containers) - 1: the property "
         "is read as 'element decoders are entered through more than L container levels', the reading under which the crate's own documented test "
         "(4-level Vec<Vec<Vec<Vec<u8>>>> decodes with limit 3) satisfies it; the verdict uses only depth_lo <= threshold <= depth_hi",
         "stack safety is observed on a fixed 2 MiB stack in the optimised build; a stack overflow kills the child and is attributed to the last case"],
-    required=[("types_exercised", 200), ("limit_sweeps", 50000), ("limited_ok", 10000), ("limited_err", 5000), ("deep_cases", 48), ("deep_rejected", 36), ("deep_ok", 5)],
-    stages=lambda tier: [native(), native(runtime="release", name="release-deep", shards=7, args=["--mode", "deep"], mem_gb=4)],
+    required=[("fuzz_executions", 20000), ("types_exercised", 200), ("limit_sweeps", 50000), ("limited_ok", 10000), ("limited_err", 5000), ("deep_cases", 48), ("deep_rejected", 36), ("deep_ok", 5)],
+    stages=lambda tier: [native(), native(runtime="release", name="release-deep", shards=7, args=["--mode", "deep"], mem_gb=4), fuzz_aux("C11", tier)],
 )
 
 PROPS["C12"] = dict(
@@ -207,15 +215,15 @@ PROPS["C12"] = dict(
          "MemTrackingInput(MAX) over a spy (hook conservation), then EVERY limit 0..=U+1 when U <= 4096 (each limit makes a different allocation the "
          "failing one) and {0,1,U/2,U-1,U,U+1,2U,MAX} otherwise through decode_with_mem_limit, plus binding limits under/above other wrappers and "
          "hostile strings x limits {0,1,64,4096,MAX}; U compared with the logical heap payload computed from the value by the bridge. "
-         "Non-trivial = value with U > 0; distinct = hash set of (type, bytes)",
+         "Non-trivial = value with U > 0; distinct = hash set of (type, bytes)" + FUZZ_RULE,
     assumptions=COMMON_ASSUMPTIONS + [
         "payload = len*size_of(elem) for Vec/VecDeque/BinaryHeap/LinkedList/Cow<[T]>, size_of(T) for Box/Rc/Arc, byte length for String/Bytes, store bytes "
         "for bit sequences, summed over nesting (exact part) + len*size_of((K,V)) for tree maps/sets (tree part); demanded: U >= exact + tree/2, and U = 0 "
         "when the value owns no heap object"],
     exhaustive_note="for every value with U <= 4096 the limit sweep 0..=U+1 is complete",
-    required=[("types_exercised", 180), ("limit_sweeps", 100000), ("values_with_positive_usage", 5000), ("values_with_zero_usage", 1000),
+    required=[("fuzz_executions", 20000), ("types_exercised", 180), ("limit_sweeps", 100000), ("values_with_positive_usage", 5000), ("values_with_zero_usage", 1000),
               ("stacked_limits", 1000), ("saturation_cases", 1), ("hostile_limited", 10000)],
-    stages=lambda tier: [native()],
+    stages=lambda tier: [native(), fuzz_aux("C12", tier)],
 )
 
 import derive_runner  # noqa: E402
